@@ -193,6 +193,8 @@ def ground_truth(ix):
             if sc["outcome"] == "succeed":
                 p = sc.get("payload")
                 from dexsim.interp import canon
+                if p is not None and p.startswith("X"):
+                    p = p[1:]
                 truth.setdefault(name, ("ret", canon(json.loads(p)) if p is not None else ["none"]))
             else:
                 truth.setdefault(name, ("raise", None))
@@ -530,12 +532,40 @@ def _abandoned(ix, inv, r):
 
 
 # --------------------------------------------------------------------------- C08
-def check_c08(worlds_or_ix):
+def c08_path_ids(ix):
+    """path -> id of one execution (first id seen per path)."""
+    path_id = {}
+    id_path = {}
+    for e in ix.kinds["applied"]:
+        if e["type"] == "EXECUTION" or e.get("name") is None:
+            continue
+        name = e["name"]
+        if e.get("sub") in ("ParallelBranch", "MapIteration"):
+            pp = id_path.get(e.get("parent"))
+            if pp is None:
+                continue
+            path = f"{pp}/{name}"
+        else:
+            path = name
+        if path not in path_id:
+            path_id[path] = e["id"]
+            id_path.setdefault(e["id"], path)
+    return path_id
+
+
+def check_c08(worlds_or_ix, other_ids=None):
     """Identity: path -> Id is a function over all given executions, injective, parents match."""
     out = []
     ixs = worlds_or_ix if isinstance(worlds_or_ix, list) else [worlds_or_ix]
     path_id = {}
     id_path = {}
+    if other_ids:
+        mine = c08_path_ids(ixs[0])
+        for path, oid in mine.items():
+            if path in other_ids and other_ids[path] != oid:
+                out.append(V("C08", "id-differs-between-executions", f"{path} recorded under id {oid[:12]} in this execution but under "
+                             f"{other_ids[path][:12]} in the fault-free execution of the same program", pos=path))
+                break
     for n, ix in enumerate(ixs):
         for e in ix.kinds["applied"]:
             if e["type"] == "EXECUTION":
@@ -902,6 +932,12 @@ def check_c13(ix, cfg):
                 if exp is not None and not fails_before and d["v"] != exp:
                     out.append(V("C13", "wrong-result", f"{pos}: returned {json.dumps(d['v'])[:100]}, expected state of poll {first_stop} "
                                  f"{json.dumps(exp)[:100]}", pos=pos, seq=d["s1"]))
+        for d in ix.deliveries.get(pos, []):
+            if d["how"] in ("ret", "raise") and not d.get("inv_level") and d.get("cls") not in ("ExecutionError", "ValidationError"):
+                stt = ix.status_at(oid, d["s1"]) if oid else None
+                if stt not in TERMINAL:
+                    out.append(V("C13", "outcome-before-record", f"{pos}: the condition's {d['how']} reached user code in invocation {d['inv']} "
+                                 f"while the backend holds status {stt}: a crash now would poll a finished condition again", pos=pos, seq=d["s1"]))
         if oid is not None:
             n_retry = len([a for a in ix.applied_for(oid) if a["action"] == "RETRY" and not a.get("rejected")])
             if first_stop is not None and n_retry > first_stop - 1:
@@ -947,6 +983,8 @@ def check_c14(ix, cfg):
                 out.append(V("C14", "invoke-sent-twice", f"{pos}: {len(starts)} CHAINED_INVOKE START records", pos=pos, seq=starts[1]["s"]))
             for a in starts[:1]:
                 want = json.dumps(mkvalue(st.get("payload", ["none"])))
+                if st.get("serdes") in ("payload", "both"):
+                    want = "X" + want
                 if a.get("payload") != want:
                     out.append(V("C14", "invoke-wrong-payload", f"{pos}: START payload {str(a.get('payload'))[:80]!r}, expected {want[:80]!r}",
                                  pos=pos, seq=a["s"]))
@@ -964,6 +1002,8 @@ def check_c14(ix, cfg):
                         out.append(V("C14", "invoke-result-without-success", f"{pos}: returned while backend status {st_be}", pos=pos, seq=d["s1"]))
                     else:
                         p = sc.get("payload")
+                        if p is not None and st.get("serdes") in ("result", "both"):
+                            p = p[1:]
                         exp = canon(json.loads(p)) if p is not None else ["none"]
                         if d["v"] != exp:
                             out.append(V("C14", "invoke-wrong-result", f"{pos}: returned {json.dumps(d['v'])[:80]}, expected {json.dumps(exp)[:80]}",
@@ -1167,6 +1207,21 @@ def check_c18(ix, cfg):
                 out.append(V("C18", "unexpected-raise", f"invocation {inv} raised {info.get('exc_cls')}: {info.get('exc_msg')}: no retriable "
                              f"checkpoint error, invocation-level error or malformed payload occurred", seq=r["s"] if r else 0,
                              exc=info.get("exc_cls")))
+        fails = [e for e in ix.kinds["api-end"] if e["i"] == inv and not e.get("ok") and e.get("err") in ERROR_CLASSES]
+        if fails and oc in ("SUCCEEDED", "PENDING", "FAILED", "raise"):
+            f = fails[0]
+            b = next((b for b in ix.kinds["api-begin"] if b["call"] == f["call"]), None)
+            opname = b["op"] if b else "checkpoint"
+            exp = expected_for_error(f["err"], opname)
+            if oc in ("SUCCEEDED", "PENDING"):
+                if not (b and b["n"] == 0 and opname == "checkpoint"):
+                    out.append(V("C18", "wrong-classification", f"invocation {inv} returned {oc} although API call {f['call']} ({opname}) "
+                                 f"failed with {f['err']} (expected {exp})", seq=f["s"]))
+            elif oc == "FAILED" and exp == "raise":
+                out.append(V("C18", "wrong-classification", f"invocation {inv} returned FAILED for retriable error {f['err']}", seq=f["s"]))
+            elif oc == "raise" and exp == "FAILED" and info.get("exc_cls") in ("CheckpointError", "BackgroundThreadError"):
+                out.append(V("C18", "wrong-classification", f"invocation {inv} raised {info.get('exc_cls')} for non-retriable error {f['err']}",
+                             seq=f["s"]))
         if r is not None:
             live = [n for n in r.get("live", []) if n.startswith("dex-handler")]
             if live:
